@@ -190,4 +190,186 @@ theorem gen_sem_signatures {cx : Ctx} {L : Msl.Layout} {prog : List Ir.Func} {mp
   msig_false hP hsig hreq
 
 
+/-! ## where the full statement fails: negations with concrete witnesses (both replayed on the real exporter) -/
+
+def P1 : Prim where
+  fbin _ x _ := x
+  fcmp _ _ _ := false
+  fneg x := x
+  fstep _ x := x
+  idiv s x y := if s then x.sdiv y else x / y
+  imod s x y := if s then x.srem y else x % y
+  i2f x := x
+  u2f x := x
+  f2i x := x
+  f2u x := x
+  f2b _ := false
+  d2f _ := 0
+  intr _ _ _ := none
+
+def cxW : Ctx where
+  locName n := String.ofList (List.replicate (n + 1) 'l')
+  globName n := String.ofList ('g' :: List.replicate n 'g')
+  funcName n := String.ofList ('Z' :: List.replicate n 'Z')
+  vty _ := .int
+  retTy _ := some .int
+  req _ := some []
+  called _ := true
+
+def envW : Ast.Env where
+  res s := match s.toList with
+    | 'l' :: r => some (.loc r.length)
+    | 'g' :: r => some (.glob r.length)
+    | _ => none
+  vty _ := .int
+  fres s := match s.toList with
+    | 'Z' :: r => some r.length
+    | _ => none
+
+def W1 : World := { P := P1, phi := fun _ _ _ => none, sig := fun _ => none }
+def M1 : Msl.MWorld := { P := P1, mphi := fun _ _ _ _ => none, msig := fun _ _ => none }
+
+/-- `(x + -2147483648) / 2` -/
+def eMin : Ir.Expr :=
+  .op .Divide (.cons (.op .Add (.cons (.var 0) (.cons (.lit (.int32 (BitVec.intMin 32))) .nil))) (.cons (.lit (.int32 2)) .nil))
+
+def σm : Store := fun _ => .i (-1)
+
+/-- **negation witness 1** (known finding *metal-integer-literal-typing*): the typed constant `Int32(i32::MIN)` is printed
+`-2147483648`; in Metal `2147483648` does not fit `int`, so the literal — and with it the sum and the quotient — is a 64-bit
+`long`.  For `x = -1` the IR computes `(-1 + INT_MIN)` with 32-bit wrap-around (`INT_MAX`) and `/ 2` gives `0x3FFFFFFF`; the
+emitted Metal computes `-2147483649 / 2 = -1073741824` in 64 bits and converts to `int`: `0xC0000000`.  So meaning
+preservation is **false** outside the side condition "`Int32(i32::MIN)` is not an operand of an operator" of `Ir.okM`.
+Replayed on the real exporter: corpus/C02.txt `int f3(int x) { return (x + -2147483648) / 2; }`, `x = -1`. -/
+theorem int_min_literal_changes_meaning :
+    ∃ a, genExpr cxW eMin = .ok a ∧ Ir.typeOf W1.sig cxW.vty eMin = some .int ∧
+      Msl.typeOf M1.msig envW a = some .lit ∧
+      (Ir.eval W1 eMin σm).map (·.1) = some (.i 0x3FFFFFFF#32) ∧
+      (Msl.convR P1 .lit .int (Msl.eval M1 envW a σm)).map (·.1) = some (.i 0xC0000000#32) := by
+  refine ⟨.bin .Divide (.bin .Add (.ident "l") (.un .Minus (.lit (.intUntyped 2147483648)))) (.lit (.intUntyped 2)), rfl, ?_, ?_, ?_, ?_⟩ <;> decide
+
+/-- `(int)((2147483647 + 1000000) / 7)`, as the type checker leaves it: arithmetic on `IntLiteral`s, then a cast -/
+def eLit : Ir.Expr :=
+  .cast .int (.op .Divide (.cons (.op .Add (.cons (.lit (.intLit 2147483647)) (.cons (.lit (.intLit 1000000)) .nil)))
+    (.cons (.lit (.intLit 7)) .nil)))
+
+/-- **negation witness 1b** (same finding): RSSL computes on `IntLiteral`s exactly (`2148483647 / 7 = 306926235`); the
+emitted `(int)((2147483647 + 1000000) / 7)` is `int` arithmetic in Metal: the sum wraps and the quotient is `-306640521`. -/
+theorem literal_arithmetic_changes_meaning :
+    ∃ a, genExpr cxW eLit = .ok a ∧
+      (Ir.eval W1 eLit σm).map (·.1) = some (.i (BitVec.ofInt 32 306926235)) ∧
+      (Msl.eval M1 envW a σm).map (·.1) = some (.i (BitVec.ofInt 32 (-306640521))) := by
+  refine ⟨.cast "int" (.bin .Divide (.bin .Add (.lit (.intUntyped 2147483647)) (.lit (.intUntyped 1000000))) (.lit (.intUntyped 7))), rfl, ?_, ?_⟩ <;> decide
+
+/-- `int g(inout int p, int q) { return p + q; }` as the typed world sees it -/
+def W2 : World where
+  P := P1
+  sig f := if f = 0 then some (.int, [(.inout, .int), (.in_, .int)]) else none
+  phi f vals σ :=
+    if f = 0 then
+      match vals with
+      | [.i a, .i b] => some (.i (a + b), [.i a, .i b], σ)
+      | _ => none
+    else none
+
+/-- the Metal world the program theorem provides for it: the call through a reference is copy-in at the moment of the call,
+the typed function, copy-out -/
+def M2 : Msl.MWorld where
+  P := P1
+  msig f t := if f = 0 ∧ t = false then some (.int, [(.ref, .int), (.val, .int)]) else none
+  mphi f t margs σ :=
+    if f = 0 ∧ t = false then
+      match margs with
+      | [.ref x, .val q] =>
+        match W2.phi 0 [σ x, q] σ with
+        | none => none
+        | some (ret, finals, σ2) => some (ret, writeBack [some x, none] finals σ2)
+      | _ => none
+    else none
+
+theorem worlds2 : Worlds cxW (fun _ => []) W2 M2 where
+  prim := rfl
+  ret := by intro f rt ps h; simp [W2] at h; simp [cxW, h.2.1.symm]
+  sig := by
+    intro f rt ps gs h hr _
+    simp only [W2] at h
+    split at h
+    · rename_i hf; subst hf
+      simp at h; obtain ⟨rfl, rfl⟩ := h
+      simp [cxW] at hr; subst hr
+      simp [M2, mParams, globParams, pkOf]
+    · simp at h
+  call := by
+    intro f rt ps gs l σ h hr _ hfit _
+    simp only [W2] at h
+    split at h
+    · rename_i hf; subst hf
+      simp at h; obtain ⟨rfl, rfl⟩ := h
+      simp [cxW] at hr; subst hr
+      match l, hfit with
+      | [(v1, some x), (v2, none)], _ =>
+        simp only [M2, toMArg, globMArgs, valAt, List.map, List.append_nil, and_self, if_true]
+        cases W2.phi 0 [σ x, v2] σ <;> rfl
+      | [], hfit => simp [fitsB] at hfit
+      | [_], hfit => simp [fitsB] at hfit
+      | (_, none) :: _ :: _, hfit => simp [fitsB] at hfit
+      | [(_, some _), (_, some _)], hfit => simp [fitsB] at hfit
+      | _ :: _ :: _ :: _, hfit => simp [fitsB] at hfit
+    · simp at h
+
+/-- `g(x, x++)` -/
+def eOrd : Ir.Expr := .call 0 (.cons (.var 0) (.cons (.op .PostfixIncrement (.cons (.var 0) .nil)) .nil))
+def σ5 : Store := fun _ => .i 5
+
+/-- **negation witness 2** (known finding *inout-copy-in-after-later-arguments*): with the two worlds linked exactly as
+`gen_sem_program_partial` links them (`worlds2 : Worlds …`), the call `g(x, x++)` — `x` passed to an `inout` parameter and
+modified by a later argument — evaluates to `10` in the typed semantics (the value of `x` is copied in when the first
+argument is reached: `5 + 5`) and to `11` in the emitted Metal (the reference is bound, `x++` runs, the trampoline copies
+`x` in afterwards: `6 + 5`).  So `gen_sem_expr` is **false** without the side condition "the `in` arguments after an
+out/inout argument have no side effects" (`Ir.refArgsOK`).  Replayed on the real exporter: corpus/C02.txt
+`int g(inout int p, int q) { return p + q; } int f(int x) { return g(x, x++); }`, `x = 5`. -/
+theorem inout_copy_in_order_changes_meaning :
+    ∃ a, genExpr cxW eOrd = .ok a ∧ Worlds cxW (fun _ => []) W2 M2 ∧
+      Ir.typeOf W2.sig cxW.vty eOrd = some .int ∧
+      (Ir.eval W2 eOrd σ5).map (·.1) = some (.i 10) ∧ (Msl.eval M2 envW a σ5).map (·.1) = some (.i 11) := by
+  refine ⟨.call "Z" (.cons (.ident "l") (.cons (.un .PostfixIncrement (.ident "l")) .nil)), rfl, worlds2, ?_, ?_, ?_⟩ <;> decide
+
+/-! ## non-vacuity -/
+
+theorem agreeW : AgreeM cxW (fun _ => true) envW where
+  res x _ := by cases x <;> simp [Ctx.name, cxW, envW, List.replicate_succ]
+  vty := rfl
+  fres f := by simp [cxW, envW]
+  notLib f := by
+    constructor <;> (intro h; have := congrArg String.toList h; simp [cxW, Msl.fmodName, Msl.tagName] at this)
+
+/-- `int f(inout int p2) { for (int v1 = 0; v1 < 3; ++v1) { p2 += 1; g0 = g0 % 5 + v1; } g(p2, 7); return p2 - -5; }` -/
+def fExM : Ir.Func where
+  id := 7
+  ret := .int
+  params := [(2, .inout, .int)]
+  body :=
+    .cons (.for (.defs [(1, some (.lit (.int32 0)))])
+        (some (.op .LessThan (.cons (.var 1) (.cons (.lit (.int32 3)) .nil))))
+        (some (.op .PrefixIncrement (.cons (.var 1) .nil)))
+        (.cons (.expr (.op .SumAssignment (.cons (.var 2) (.cons (.lit (.int32 1)) .nil))))
+          (.cons (.expr (.op .Assignment (.cons (.global 0)
+            (.cons (.op .Add (.cons (.op .Modulus (.cons (.global 0) (.cons (.lit (.int32 5)) .nil))) (.cons (.var 1) .nil))) .nil)))) .nil)))
+      (.cons (.expr (.call 0 (.cons (.var 2) (.cons (.lit (.int32 7)) .nil))))
+      (.cons (.ret (some (.op .Subtract (.cons (.var 2) (.cons (.lit (.int32 (-5))) .nil))))) .nil))
+
+/-- the hypotheses of the statement theorems hold for it (a loop, an inout parameter, a static, a call with an inout
+argument followed by a pure argument, a negative constant), the names agree, and the exporter produces the trampoline
+target and the trampoline for it -/
+example : Ir.wtStmtsM (side cxW W2 (fun _ => true) (fun _ => [])) fExM.ret none fExM.body = true := by decide
+example : Lemmas.GenMsl.AgreeM cxW (fun _ => true) envW := agreeW
+example : ∃ t1 t2, genFuncs cxW fExM = .ok [t1, t2] ∧ t1.isTarget = true ∧ t2.isTarget = false := ⟨_, _, rfl, rfl, rfl⟩
+/-- …and the instance of `gen_sem_stmts` it yields, in the linked worlds of witness 2 -/
+example (b' : HlslAst.Stmts) (h : genStmts cxW fExM.body = .ok b') (fuel : Nat) (σ : Store) :
+    Msl.execs M2 envW .int fuel .run b' σ = Ir.execs W2 fuel .run fExM.body σ :=
+  gen_sem_stmts agreeW worlds2 .int none fExM.body b' h (by decide) .run trivial fuel σ
+/-- floating-point `%` becomes `metal::fmod`, and is covered -/
+example : genExpr { cxW with vty := fun _ => .float } (.op .Modulus (.cons (.var 0) (.cons (.var 1) .nil))) =
+    .ok (.call "metal::fmod" (.cons (.ident "l") (.cons (.ident "ll") .nil))) := by rfl
+
 end RsslVerif.Thm.C02Sem
